@@ -13,6 +13,23 @@ _fh = None
 _depth = [0]
 
 
+def _plain(v):
+    """picklable stand-ins: dask arrays computed, ClimatologyConfig as a list of member dicts"""
+    if type(v).__module__.startswith("dask"):
+        return v.compute()
+    if type(v).__name__ == "ClimatologyConfig":
+        out = []
+        for m in v.members:
+            d = {"tspan": tuple(m.tspan), "vspan": tuple(m.vspan), "period": m.period}
+            if m.fspan is not None:
+                d["fspan"] = tuple(m.fspan)
+            if m.zspan is not None:
+                d["zspan"] = tuple(m.zspan)
+            out.append(d)
+        return out
+    return v
+
+
 def _wrap(modname, name, fn):
     sig = inspect.signature(fn)
 
@@ -25,8 +42,7 @@ def _wrap(modname, name, fn):
         try:
             try:
                 ba = sig.bind(*a, **kw)
-                rec["args"] = {k: (v.compute() if type(v).__module__.startswith("dask") else v)
-                               for k, v in ba.arguments.items()}
+                rec["args"] = {k: _plain(v) for k, v in ba.arguments.items()}
             except TypeError:
                 rec["args"] = None
             try:
